@@ -240,6 +240,19 @@ func LooseEq(a, b Val) bool {
 		if len(a.A) != len(b.A) {
 			return false
 		}
+		if a.K == KHash {
+			// hashes over different sets of keys are unequal whatever they
+			// hold (a key the other side lacks is not an entry holding null)
+			has := map[string]bool{}
+			for _, k := range a.Keys {
+				has[k] = true
+			}
+			for _, k := range b.Keys {
+				if !has[k] {
+					return false
+				}
+			}
+		}
 		for i := range a.A {
 			if a.K == KHash && a.Keys[i] != b.Keys[i] {
 				if len(a.A) > 1 {
